@@ -1,0 +1,27 @@
+//go:build verif
+
+// Contracts for the host side of stateful variables (read as text by /verif's govc; comment-only).
+// From the property (C19, "compiled Arc code computes what the specification says"): a stateful
+// variable is initialised by the first load of a node and afterwards holds the last stored value,
+// whatever that value is - zero included.
+
+package stateful
+
+//@ ignorepkg github.com/tetratelabs/wazero
+//@ # load_<t>: a variable that holds a value is read back; only a variable that holds none is
+//@ # initialised (with the initial value the compiled code passes, which is also returned).
+//@ # The two callbacks handed to wazero are executed from an arbitrary state (pragma arg_closures).
+//@ func bindScalarI32[T i32Compatible](builder wazero.HostModuleBuilder, h *Host, store map[string]map[uint32]T, suffix string)
+//@   pragma arg_closures
+//@   overflow off
+//@   closure_requires h != nil && store != nil && (forall k string :: __in(store, k) ==> store[k] != nil)
+//@   assert_before "return uint32(value)" old(__in(store, h.currentNodeKey)) && old(__in(store[h.currentNodeKey], varID)) && value == old(store[h.currentNodeKey][varID])
+//@   assert_before "return initValue" !(old(__in(store, h.currentNodeKey)) && old(__in(store[h.currentNodeKey], varID))) && __in(store, h.currentNodeKey) && __in(store[h.currentNodeKey], varID) && store[h.currentNodeKey][varID] == T(initValue)
+//@   modifies *
+//@ func bindScalarI64[T i64Compatible](builder wazero.HostModuleBuilder, h *Host, store map[string]map[uint32]T, suffix string)
+//@   pragma arg_closures
+//@   overflow off
+//@   closure_requires h != nil && store != nil && (forall k string :: __in(store, k) ==> store[k] != nil)
+//@   assert_before "return uint64(value)" old(__in(store, h.currentNodeKey)) && old(__in(store[h.currentNodeKey], varID)) && value == old(store[h.currentNodeKey][varID])
+//@   assert_before "return initValue" !(old(__in(store, h.currentNodeKey)) && old(__in(store[h.currentNodeKey], varID))) && __in(store, h.currentNodeKey) && __in(store[h.currentNodeKey], varID) && store[h.currentNodeKey][varID] == T(initValue)
+//@   modifies *
